@@ -25,31 +25,31 @@ Proof.
     pose proof (pre_spec fixed c s prev i) as P;
     assert (P' : match pre fixed c s prev i with HRetry _ _ => True | HDone r0 _ =>
                match r0 with RSuccess _ => False | RRegionErr j => j + 1 = i /\ exists t o, prev = Some (t, o) /\ is_region_err o = true | _ => True end end).
-    1,3: (unfold pre; destruct prev as [[t o']|]; [|exact I]; destruct OK as [O1 O2];
+    1,3: (unfold pre; destruct (c_interruptible c && killed s && _); [exact I|]; destruct prev as [[t o']|]; [|exact I]; destruct OK as [O1 O2];
           pose proof (handle_q fixed c s t o' (pred i)) as HQ; destruct (handle fixed c s t o' (pred i)) as [|r0 e0]; [exact I|];
           destruct r0; auto; destruct HQ as [-> HQ]; split; [lia|eauto]).
   all: destruct (pre fixed c s prev i) as [s1 evs1|r0 evs1];
-    [| injection H as <- <-; subst evs1; destruct r0; cbn; auto; try tauto; destruct P' as [P1 P2]; split; [cbn; lia|left; auto]].
+    [| injection H as <- <-; destruct P as [PA _]; destruct r0; unfold result_ok; auto; try tauto; destruct P' as [P1 P2]; split; [lia|left; auto]].
   all: destruct P as [_ P2]; cbv zeta in H;
     pose proof (sel_phase_spec c (if 0 <? i then set_q_retry true s1 else s1)) as Q;
     pose proof (sel_phase_q c (if 0 <? i then set_q_retry true s1 else s1)) as Q';
     destruct (sel_phase c _) as [s2 t evs2|r2 evs2];
     [| injection H as <- <-; destruct Q' as [-> | ->]; exact I]; destruct Q as (_ & Q2 & _).
-  - injection H as <- <-. unfold result_ok. rewrite !n_attempts_app, P2, Q2, Nat.sub_diag. cbn. repeat split; lia.
+  - injection H as <- <-. destruct (dead s2); [exact I|]. unfold result_ok. rewrite !n_attempts_app, P2, Q2, Nat.sub_diag. cbn. repeat split; lia.
   - assert (A : forall e, n_attempts (evs1 ++ evs2 ++ EAtt t (q_rr s2) (q_stale s2) (q_retry s2) :: e) = S (n_attempts e))
       by (intros e; rewrite !n_attempts_app, P2, Q2; reflexivity).
-    assert (SUCC : o = OSuccess -> result_ok (o :: rest) prev i (evs1 ++ evs2 ++ [EAtt t (q_rr s2) (q_stale s2) (q_retry s2)]) (RSuccess i)).
-    { intros ->. unfold result_ok. rewrite A. rewrite Nat.sub_diag. cbn. repeat split; lia. }
-    assert (REC : o <> OSuccess -> forall evs' r', loop_gen fixed c rest (after_send s2 t) (Some (t, o)) (S i) = (evs', r') ->
+    assert (SUCC : o = OSuccess -> result_ok (o :: rest) prev i (evs1 ++ evs2 ++ [EAtt t (q_rr s2) (q_stale s2) (q_retry s2)]) (if dead s2 then RError else RSuccess i)).
+    { intros ->. destruct (dead s2); [exact I|]. unfold result_ok. rewrite A. rewrite Nat.sub_diag. cbn. repeat split; lia. }
+    assert (REC : o <> OSuccess -> forall evs' r', loop_gen fixed c rest (raise_att c i (after_send s2 t)) (Some (t, if dead s2 then ORpcErr Reachable else o)) (S i) = (evs', r') ->
               result_ok (o :: rest) prev i (evs1 ++ evs2 ++ EAtt t (q_rr s2) (q_stale s2) (q_retry s2) :: evs') r').
-    { intros No evs' r' L. apply IH in L; [|split; [assumption|lia]].
+    { intros No evs' r' L. apply IH in L; [|split; [destruct (dead s2); [discriminate|assumption]|lia]].
       destruct r'; unfold result_ok in *; auto; rewrite A.
       - destruct L as (L1 & L2 & L3). replace (i0 - i) with (S (i0 - S i)) by lia. cbn [nth]. repeat split; try lia. exact L3.
       - destruct L as (L1 & [(L2 & t' & o' & E & L3) | (L2 & L3 & L4)]); split; try lia; right.
-        + injection E as <- <-. replace (i0 - i) with 0 by lia. cbn [nth length]. repeat split; try lia. exact L3.
+        + injection E as <- <-. destruct (dead s2); [discriminate|]. replace (i0 - i) with 0 by lia. cbn [nth length]. repeat split; try lia. exact L3.
         + replace (i0 - i) with (S (i0 - S i)) by lia. cbn [nth length]. repeat split; try lia. exact L4. }
     destruct o; try (injection H as <- <-; now apply SUCC);
-      (destruct (loop_gen fixed c rest (after_send s2 t) _ (S i)) as [evs' r'] eqn:L; injection H as <- <-; apply REC; [discriminate|first [assumption|reflexivity]]).
+      (destruct (loop_gen fixed c rest (raise_att c i (after_send s2 t)) _ (S i)) as [evs' r'] eqn:L; injection H as <- <-; apply REC; [discriminate|first [assumption|reflexivity]]).
 Qed.
 
 Lemma run_result c script rands sleeps evs r : run_gen fixed c script rands sleeps = (evs, r) ->
@@ -82,7 +82,8 @@ Lemma run_retry c script rands sleeps :
   end.
 Proof.
   unfold run_gen. destruct (validation_refuses c); [exact I|].
-  set (s := init_state c rands sleeps). rewrite loop_unfold. cbn [pre]. cbv zeta. cbn [Nat.ltb Nat.leb].
+  set (s := init_state c rands sleeps). rewrite loop_unfold. unfold pre.
+  destruct (c_interruptible c && killed s && _); [exact I|]. cbv zeta. cbn [Nat.ltb Nat.leb].
   pose proof (sel_phase_spec c s) as Q; pose proof (sel_phase_q c s) as Q'. destruct (sel_phase c s) as [s2 t evs2|r evs2].
   2: { destruct Q as [Q _]. cbn [fst app]. now rewrite retry_flags_noatt. }
   destruct Q as (_ & Q & _). destruct Q' as [Q' _]. change (q_retry s) with false in Q'.
@@ -90,9 +91,9 @@ Proof.
      match retry_flags ([] ++ evs2 ++ EAtt t (q_rr s2) (q_stale s2) (q_retry s2) :: e) with [] => True | d :: rest => d = false /\ Forall (fun x => x = true) rest end).
   { intros e He. cbn [app]. rewrite retry_flags_app, retry_flags_noatt by assumption. cbn. split; [assumption|]. now apply retry_flags_all. }
   destruct script as [|o rest]; [cbn [fst]; apply (G []); constructor|].
-  pose proof (loop_retry fixed c rest (after_send s2 t) (Some (t, o)) 1 ltac:(left; lia)) as L.
+  pose proof (loop_retry fixed c rest (raise_att c 0 (after_send s2 t)) (Some (t, if dead s2 then ORpcErr Reachable else o)) 1 ltac:(left; lia)) as L.
   destruct o; try (cbn [fst]; apply (G []); constructor);
-    destruct (loop_gen fixed c rest (after_send s2 t) _ 1) as [e r]; cbn [fst] in *; apply G; assumption.
+    destruct (loop_gen fixed c rest (raise_att c 0 (after_send s2 t)) _ 1) as [e r]; cbn [fst] in *; apply G; assumption.
 Qed.
 
 End Gen.
